@@ -204,10 +204,7 @@ func (ls *lockSummaries) callees(cc *ssa.CallCommon) []*ssa.Function {
 		}
 		return nil
 	}
-	if mc, ok := cc.Value.(*ssa.MakeClosure); ok {
-		return []*ssa.Function{mc.Fn.(*ssa.Function)}
-	}
-	return nil
+	return ls.c.cg.dynCallees(cc)
 }
 
 // rebase expresses the callee's acquisitions in the caller's name space by substituting actuals
